@@ -2,7 +2,10 @@
 # run every claimed quick check on the current tree; prints one status line per property
 cd "$(dirname "$0")/.."
 tier=${1:-quick}
-for id in $(python3 -c "import json; print(' '.join(c['property_id'] for c in json.load(open('MANIFEST.json'))['checks']))"); do
+shift
+ids="$@"
+[ -z "$ids" ] && ids=$(python3 -c "import json; print(' '.join(c['property_id'] for c in json.load(open('MANIFEST.json'))['checks']))")
+for id in $ids; do
   s=$(date +%s)
   out=$(./check $id --tier $tier 2>/dev/null); rc=$?
   out=$(echo "$out" | tail -3)
